@@ -138,6 +138,21 @@ def run(ctx: Check, tree: Tree) -> None:
             ctx.ok("R-DEPENDS", tree.loc(ret), f"{fn.qual}: `{unparse(ret)}` depends on the node loop variable `{loop_var}`")
     if n_checked == 0:
         raise AnalysisError(f"{fn.qual}: no non-None return")
+    # the product is handed out whenever it is not 1: `None` (no prefactor) only stands for +1
+    for ret, _ in rd.returns:
+        if ret.value is None or (isinstance(ret.value, ast.Constant) and ret.value.value is None):
+            continue
+        if any(a is loop for a in ancestors(ret)):
+            continue
+        guards = [a for a in ancestors(ret) if isinstance(a, ast.If)]
+        for g in guards:
+            t = g.test
+            acc = [n.id for n in ast.walk(ret.value) if isinstance(n, ast.Name)]
+            ok_t = (isinstance(t, ast.Compare) and len(t.ops) == 1 and isinstance(t.ops[0], ast.NotEq) and isinstance(t.comparators[0], ast.Constant)
+                    and t.comparators[0].value in {1, 1.0} and isinstance(t.left, ast.Name) and t.left.id in acc)
+            ctx.verdict(ok_t, "R-DEPENDS", f"{fn.qual}::returned-iff-not-one", tree.loc(g),
+                        f"the accumulated prefactor is returned under `{unparse(t)}` - whenever it differs from 1 (None stands for +1 only)",
+                        None if ok_t else "a product of -1 would be answered with None: the chain loses its parity sign")
 
     # ---- contributions inside the loop: accumulator updates that reach a return
     returned_names = set()
